@@ -267,12 +267,14 @@ class ExecutionContext:
                     else:
                         return None
                 case LinearIR.OpCode.CALL:
-                    args = [
+                    # Must not re-use the name ``args``: that is the argument
+                    # list of the current activation
+                    callArgs = [
                         localScope[arg.Reference]
                         for arg in instruction.Arguments
                     ]
                     localScope[instruction.Reference] = self._Invoke(
-                        instruction.Function, args
+                        instruction.Function, callArgs
                     )
                 case LinearIR.OpCode.NEW_VARIABLE:
                     varType = instruction.Type
